@@ -54,6 +54,7 @@ def harnesses(tier):
     w = C20.eval_wrapper_harness(); w.name = 'X2.eval_wrapper'; hs.append(w)          # every node evaluation: exceptions leave as the same object
     for k in (7, 8):                                                                   # For and Switch nodes: exceptions of any child leave unchanged
         h = C09.node_harness(k); h.name = 'X3.' + h.name[2:]; hs.append(h)
+    rf = C09.ranged_for_harness(); rf.name = 'X3.Ranged_For'; hs.append(rf)
     hs += [funcall_harness(True), funcall_harness(False)]
     return hs
 
